@@ -50,6 +50,14 @@ def _no_effect(ex, args, kwargs, lineno):
 
 for _lvl in ("debug", "info", "warning", "error", "exception", "trace", "success", "critical"):
     external(f"loguru.logger.{_lvl}")(_no_effect)
+    external(f"logging.Logger.{_lvl}")(_no_effect)
+
+
+@external("logging.getLogger")
+def _get_logger(ex, args, kwargs, lineno):
+    """logging.getLogger(name): a logger object; its methods have no observable effect (diagnostics only)."""
+    from pyvc.ty import VConst
+    return VConst(("ext", "logging.Logger"))
 
 
 @external("json.dumps")
